@@ -151,6 +151,33 @@ def r3_isolation(ctx, prog):
         r.inst("callers of init_context_inner", ", ".join(callers))
     else:
         r.viol("R3:init_context_inner#callers", "called from %s" % callers, file=C)
+    # every way of making a sub-context ends, on every path, in init_subcontext_with_options (which builds around a new signal):
+    # none of them may hand back a context obtained elsewhere (the parent's, a cached one) - MIR path enumeration (py/mirsum.py)
+    import mirsum
+    ctors = {}
+    for n2, bb in prog.bodies.items():
+        m2 = re.search(r"^leptos_i18n::context::(init_i18n_subcontext\w*|init_subcontext_with_options|provide_i18n_subcontext\w*)$", n2)
+        if m2:
+            ctors[m2.group(1)] = bb
+    if "init_subcontext_with_options" not in ctors or len(ctors) < 3:
+        r.missing("sub-context constructors (found %s)" % sorted(ctors))
+    for nm, bb in sorted(ctors.items()):
+        ps = mirsum.paths(prog, bb, depth=1, max_paths=64)
+        if ps is None:
+            r.viol("R3:%s#returns" % nm, "the paths of this constructor cannot be enumerated (loop or too many branches): not decided (fail closed)", file=bb.file, line=bb.line)
+            continue
+        rets = {mirsum.fmt(ret) for _c, _t, ret in ps}
+        if nm == "init_subcontext_with_options":
+            okr = all(x.startswith("I18nContext#I18nContext(RwSignal::new(GetUntracked::get_untracked(") for x in rets)
+            what = "a context around `RwSignal::new(<initial>.get_untracked())` created in this call"
+        else:
+            okr = all(re.match(r"^context::(init_subcontext_with_options|init_i18n_subcontext_with_options)\(", x) for x in rets)
+            what = "the result of init_subcontext_with_options"
+        if okr and rets:
+            r.inst("%s#returns" % nm, "%d path(s), each returns %s" % (len(ps), what))
+        else:
+            odd = sorted(x for x in rets if not (x.startswith("I18nContext#I18nContext(RwSignal::new(") or x.startswith("context::init_")))
+            r.viol("R3:%s#returns" % nm, "on some path the sub-context handed back is not %s but `%s`: parent and sub-context would share one locale" % (what, (odd or sorted(rets))[0][:160]), file=bb.file, line=bb.line)
     fn = ctx.ast.fn(C, "init_subcontext_with_options")
     if fn is not None:
         # the parent context must not be read inside a closure (Memo / Effect)
